@@ -136,6 +136,30 @@ def type_env(idx: PyIndex, fi: FuncInfo, fn: ast.AST, exact: Dict[str, str]) -> 
     return env
 
 
+def _plain_init_fields(idx: PyIndex, ci) -> Optional[List[str]]:
+    """Field names of a class whose __init__ only stores its parameters (`self.a = a` for each), in parameter order; None for any other class."""
+    init = ci.methods.get('__init__')
+    if init is None or not isinstance(init.node, ast.FunctionDef) or init.node.args.vararg or init.node.args.kwarg:
+        return None
+    params = [a.arg for a in init.node.args.args][1:]
+    body = [b for b in init.node.body if not (isinstance(b, ast.Expr) and isinstance(b.value, ast.Constant))]
+    got = []
+    for b in body:
+        if isinstance(b, ast.Assign) and len(b.targets) == 1 and isinstance(b.targets[0], ast.Attribute) and isinstance(b.targets[0].value, ast.Name) \
+                and b.targets[0].value.id == 'self' and isinstance(b.value, ast.Name) and b.value.id == b.targets[0].attr and b.value.id in params:
+            got.append(b.value.id)
+        elif isinstance(b, ast.AnnAssign) and isinstance(b.target, ast.Attribute) and isinstance(b.target.value, ast.Name) and b.target.value.id == 'self' \
+                and isinstance(b.value, ast.Name) and b.value.id == b.target.attr and b.value.id in params:
+            got.append(b.value.id)
+        else:
+            return None
+    if sorted(got) != sorted(params) or any(p in ci.methods or p in getattr(ci, 'props', {}) for p in params):
+        return None
+    if any(n_ in ci.methods for n_ in ('__setattr__', '__getattr__', '__getattribute__')):
+        return None
+    return params
+
+
 _LIST_VIEWS: Dict[int, Optional[FuncInfo]] = {}
 
 
@@ -211,6 +235,13 @@ def _helper_for0(idx: PyIndex, fi: FuncInfo, call: ast.Call, tenv: Optional[Dict
     f = call.func
     if tenv and isinstance(f, ast.Attribute) and isinstance(f.value, ast.Name) and f.value.id in tenv and f.value.id not in ('self', 'cls'):
         return idx.lookup_method(tenv[f.value.id], f.attr)
+    # Helper(args).method(..): a method of a small class of the package, called on an instance made on the spot
+    if isinstance(f, ast.Attribute) and isinstance(f.value, ast.Call) and isinstance(f.value.func, (ast.Name, ast.Attribute)):
+        ci = idx.class_of(fi.module, f.value.func)
+        if ci is not None and _plain_init_fields(idx, ci) is not None:
+            m = idx.lookup_method(ci.id, f.attr)
+            if m is not None and m.kind == 'method':
+                return m
     if isinstance(f, ast.Name):
         local = idx.funcs.get(f'{fi.module}:{fi.qualname}.<locals>.{f.id}')
         if local is not None:
@@ -703,6 +734,25 @@ def inline_function(idx: PyIndex, fi: FuncInfo, depth: int = 2, keep=None, types
     for _ in range(depth):
         changed = False
         tenv = type_env(idx, fi, fn, exact) if types is not None else None
+        if tenv is None:
+            # without given types only the plainest fact is used: a local bound once to the constructor of a small helper class (`__init__` stores its parameters)
+            n_st: Dict[str, int] = {}
+            for x_ in ast.walk(fn):
+                if isinstance(x_, ast.Name) and isinstance(x_.ctx, ast.Store):
+                    n_st[x_.id] = n_st.get(x_.id, 0) + 1
+            helper_locals = {}
+            for x_ in ast.walk(fn):
+                if isinstance(x_, ast.Assign) and len(x_.targets) == 1 and isinstance(x_.targets[0], ast.Name) and n_st.get(x_.targets[0].id) == 1 \
+                        and isinstance(x_.value, ast.Call) and isinstance(x_.value.func, (ast.Name, ast.Attribute)):
+                    ci_ = None
+                    for mn_ in [fi.module] + sorted(_touched_modules):
+                        if mn_ in idx.modules:
+                            ci_ = idx.class_of(mn_, x_.value.func)
+                            if ci_ is not None:
+                                break
+                    if ci_ is not None and _plain_init_fields(idx, ci_) is not None:
+                        helper_locals[x_.targets[0].id] = ci_.id
+            tenv = helper_locals or None
 
         def hoist_test_call(st: ast.If) -> Optional[List[ast.stmt]]:
             """`if h(..) is not None: X` with a helper that needs statements (a search loop): the call is evaluated first and unconditionally, so it can be
@@ -1038,6 +1088,9 @@ def inline_function(idx: PyIndex, fi: FuncInfo, depth: int = 2, keep=None, types
                 any((isinstance(d, ast.Name) and d.id == 'dataclass') or (isinstance(d, ast.Call) and getattr(d.func, 'id', '') == 'dataclass') for d in ci.node.decorator_list)
                 and not any(m_ in ci.methods for m_ in ('__init__', '__post_init__', '__setattr__', '__getattr__')))
             fields = [st_.target.id for st_ in ci.node.body if isinstance(st_, ast.AnnAssign) and isinstance(st_.target, ast.Name)]
+            plain = _plain_init_fields(idx, ci)
+            if not is_record and plain is not None:
+                is_record, fields = True, plain         # `__init__` only stores its parameters
             if not is_record or not fields or len(x.value.args) > len(fields) or any(f_ in ci.methods or f_ in ci.props for f_ in fields):
                 continue
             vals = dict(zip(fields, x.value.args))
